@@ -210,7 +210,22 @@ func c15fanOutSite(e *c15env, site c15site) {
 	pargs := c15args(site.fn, pub)
 	for ai, a := range pargs {
 		tv, ok := site.fn.Info.Types[a]
-		if !ok || tv.Type == nil || !stableTerm(a) {
+		if !ok || tv.Type == nil {
+			continue
+		}
+		if lit := litOf(a); lit != nil && e.transient(tv.Type) {
+			// the parameter object is built in the call: the values its byte fields are given
+			st := c15deref(tv.Type).Underlying().(*types.Struct)
+			for fi := 0; fi < st.NumFields(); fi++ {
+				if fld := st.Field(fi); isByte(fld.Type()) {
+					if val := c15litField(site.fn, lit, fld); val != nil && stableTerm(val) {
+						qts = append(qts, qterm{x: ast.Unparen(val), name: fld.Name()})
+					}
+				}
+			}
+			continue
+		}
+		if !stableTerm(a) {
 			continue
 		}
 		pname := ""
@@ -435,7 +450,7 @@ func c15fanOutSite(e *c15env, site c15site) {
 				}
 			case *ast.AssignStmt:
 				if len(x.Lhs) == 2 && len(x.Rhs) == 1 {
-					if ix, ok := ast.Unparen(x.Rhs[0]).(*ast.IndexExpr); ok && e.selects(ix.X, e.clientsF) {
+					if key := e.clientLookup(p.fn, x.Rhs[0]); key != nil {
 						if id, ok := x.Lhs[1].(*ast.Ident); ok && id.Name != "_" {
 							okKeys = append(okKeys, p.fn.VarKey(id))
 						}
